@@ -7,10 +7,10 @@ set -u
 exec 9>/tmp/.run_baseline.lock; flock 9
 S=${1:?source dir}; R=${2:-}
 B=$S/_build
-if [ ! -f $B/build.ninja ]; then cmake -G Ninja -S $S -B $B -DCMAKE_BUILD_TYPE=RelWithDebInfo >$B.configure.log 2>&1 || { echo CONFIGURE-FAILED; tail -20 $B.configure.log; exit 2; }; fi
-cmake --build $B >$B.build.log 2>&1 || { echo BUILD-FAILED; tail -40 $B.build.log; exit 2; }
-if [ -n "$R" ]; then ctest --test-dir $B -j8 --timeout 900 -R "$R" --output-junit $B/junit.xml >$B.ctest.log 2>&1; else ctest --test-dir $B -j8 --timeout 900 --output-junit $B/junit.xml >$B.ctest.log 2>&1; fi
-python3 - $B.ctest.log <<'P'
+mkdir -p $B; if [ ! -f $B/build.ninja ]; then cmake -G Ninja -S $S -B $B -DCMAKE_BUILD_TYPE=RelWithDebInfo >$B/verif.configure.log 2>&1 || { echo CONFIGURE-FAILED; tail -20 $B/verif.configure.log; exit 2; }; fi
+cmake --build $B >$B/verif.build.log 2>&1 || { echo BUILD-FAILED; tail -40 $B/verif.build.log; exit 2; }
+if [ -n "$R" ]; then ctest --test-dir $B -j8 --timeout 900 -R "$R" --output-junit $B/junit.xml >$B/verif.ctest.log 2>&1; else ctest --test-dir $B -j8 --timeout 900 --output-junit $B/junit.xml >$B/verif.ctest.log 2>&1; fi
+python3 - $B/verif.ctest.log <<'P'
 import sys,re,json
 stable=set(x.split('::')[0] for x in json.load(open('/root/.vp/BASELINE.json'))['stable_pass'])
 log=open(sys.argv[1]).read()
